@@ -13,7 +13,7 @@
    and l1 after.  [eser] is the never re-used serial number of one registration ("the timer");
    [earm e] is the time e was registered or last re-armed, [enext e] its deadline (m_next). *)
 From OlaBase Require Import Bytes.
-From C16 Require Import Gen Model TimeVal Proofs Invariant Invariant2 Timers Due PModel PProofs PClose PAgree PAgreeW PHaz PWf PLive PAbs PSimS PSimE PSim PReg PRefused.
+From C16 Require Import Gen Model TimeVal Proofs Invariant Invariant2 Timers Due PModel PProofs PClose PAgree PAgreeW PHaz PWf PLive PAbs PSimS PSimE PSim PReg PRefused PIntr.
 Local Open Scope N_scope.
 
 Definition allocator_ok (alloc : list N -> N -> N) : Prop :=
@@ -165,6 +165,17 @@ Proof.
   - exact (t_runonce_post alloc pickc epoll s b lr dr cbs1 cbs2 s' H).
 Qed.
 Print Assumptions c16_selectserver_iteration.
+
+(* The iteration whose select() / epoll_wait() fails with EINTR (a handled signal arrived during the wait): Poll
+   returns at once.  As far as timers are concerned it is the history "loop registrations, ONE ExecuteTimeouts" - no
+   sleep, no descriptor callback, no second pass - so again every trace theorem of this file applies to runs that
+   contain such iterations, and a due timer is not lost: it is served by the ExecuteTimeouts of this or of the next
+   iteration (c16_fires_when_due). *)
+Theorem c16_interrupted_iteration : forall alloc pickc s loop_regs cbs1 s',
+  runonce_intr alloc pickc s loop_regs cbs1 = Some s' ->
+  run alloc pickc s (map (fun r : reg3 => let '(rep, iv, h) := r in OReg rep iv h) loop_regs ++ [OExec cbs1]) = Some s'.
+Proof. exact runonce_intr_run. Qed.
+Print Assumptions c16_interrupted_iteration.
 
 (* Single-shot timers fire once: no other firing in the whole trace has the same serial. *)
 Theorem c16_single_once : forall alloc pickc, allocator_ok alloc -> cancel_target_ok pickc ->
@@ -713,3 +724,47 @@ Example c16_ex_remove_ready :
   map (fun e => (le_d e, le_kind e)) (p_log (p_run true c ops)) = [(0, PKRead)] /\
   map (fun e => (le_d e, le_kind e)) (p_log (p_run false c ops)) = [(0, PKRead)].
 Proof. vm_compute. split; reflexivity. Qed.
+
+
+(* ---------- polls whose wait system call is interrupted (EINTR) ---------- *)
+(* select() / epoll_wait() returning -1/EINTR leave the fd sets / the event array as they were passed in; both
+   pollers return without looking at them.  In any state, of either back-end: no callback runs (the log is unchanged),
+   no close is reported, no byte is consumed, no registration changes, nothing is deleted; the operation index moves
+   on by one.  (SelectPoller has rebuilt its fd sets before the wait, which purges erased slots: PIntr.p_intr.) *)
+Theorem c16_interrupted_poll_serves_nothing : forall (c : p_cfg) (s : p_st),
+  let s' := p_intr c s in
+  st_log s' = st_log s /\ st_onclose s' = st_onclose s /\ st_pend s' = st_pend s /\ st_closed s' = st_closed s /\
+  st_regr s' = st_regr s /\ st_regw s' = st_regw s /\ st_del s' = st_del s /\ st_rets s' = st_rets s /\
+  st_ep s' = st_ep s /\ st_opix s' = S (st_opix s).
+Proof. exact p_intr_serves_nothing. Qed.
+Print Assumptions c16_interrupted_poll_serves_nothing.
+
+(* ... and runs that contain interrupted polls anywhere (p_runx; PXIntr = an interrupted poll) still give every
+   descriptor d that satisfies the per-descriptor guard the same callbacks with the same bytes on both back-ends,
+   namely those of the single-descriptor abstract machine, for which an interrupted poll is a no-op. *)
+Theorem c16_backends_agree_with_interrupts :
+  forall (c : p_cfg) (d : nat) (ops : list p_opx),
+    p_d_ok c d = true -> d < length c -> length c <= p_max_events -> p_ops_ok_d c d (p_px_ops ops) = true ->
+    p_proj d (p_log (p_runx true c ops)) = p_proj d (p_log (p_runx false c ops)).
+Proof. exact (fun c d ops GD L LM => p_agree_dx c d GD L LM ops). Qed.
+Print Assumptions c16_backends_agree_with_interrupts.
+
+Theorem c16_backends_refine_abstract_with_interrupts :
+  forall (c : p_cfg) (d : nat) (ops : list p_opx) (be : bool),
+    p_d_ok c d = true -> d < length c -> length c <= p_max_events -> p_ops_ok_d c d (p_px_ops ops) = true ->
+    p_proj d (p_log (p_runx be c ops)) = rev (a_log (l_runx c d 0 (l_init c d) ops)).
+Proof. exact (fun c d ops be GD L LM => p_refine_dx c d GD L LM ops be). Qed.
+Print Assumptions c16_backends_refine_abstract_with_interrupts.
+
+(* an idle connected descriptor and a pipe with unread data: the interrupted poll (operation 3) serves neither and
+   reports no close; the next poll delivers the data; the hang-up is reported once, after a further interrupted poll *)
+Example c16_ex_interrupted_poll :
+  let c := [Build_p_dcfg PSock true false 9 [] [] []; Build_p_dcfg PPipe false false 9 [] [] []] in
+  let ops := [PX (POAddR 0); PX (POAddR 1); PX (POWrite 1 [7%N]); PXIntr; PX (POPoll false); PX (POClosePeer 0); PXIntr;
+              PX (POPoll false)] in
+  p_d_ok c 0 = true /\ p_d_ok c 1 = true /\
+  (fun be => map (fun e => (le_op e, le_d e, le_kind e, le_bytes e)) (p_log (p_runx be c ops))) true =
+    [(4, 1, PKRead, [7%N]); (7, 0, PKClose, [])] /\
+  (fun be => map (fun e => (le_op e, le_d e, le_kind e, le_bytes e)) (p_log (p_runx be c ops))) false =
+    [(4, 1, PKRead, [7%N]); (7, 0, PKClose, [])].
+Proof. cbv beta. vm_compute. repeat split; reflexivity. Qed.
